@@ -777,6 +777,8 @@ pub struct Ctx<'a> {
     pub room: Option<&'a str>,
     nvar: usize,
     out: Rendered,
+    /// aliases under which a system field was selected
+    sys_aliases: Vec<String>,
 }
 
 const OPS: &[&str] = &["=", "!=", ">", ">=", "<", "<="];
@@ -786,7 +788,7 @@ const UNKNOWN_ID: &str = "ZZZZZZZZZZZZZZZZZZZZZw";
 
 impl<'a> Ctx<'a> {
     pub fn new(model: &'a RModel, avoid: Avoid, rows: &'a [String], room: Option<&'a str>) -> Ctx<'a> {
-        Ctx { model, avoid, rows, room, nvar: 0, out: Rendered::default() }
+        Ctx { model, avoid, rows, room, nvar: 0, out: Rendered::default(), sys_aliases: Vec::new() }
     }
 
     fn var(&mut self, k: PKind) -> String {
@@ -1005,6 +1007,9 @@ impl<'a> Ctx<'a> {
             match p {
                 QParam::Filter { target, op, val } => {
                     let (name, ty, nullable, has_default) = self.target_field(ent, selected, *target);
+                    if self.sys_aliases.contains(&name) {
+                        self.out.facts.filter_on_system_alias = true;
+                    }
                     let f = RField { name: name.clone(), ty, nullable, default: if has_default { Some(String::new()) } else { None } };
                     let v = if ty.is_ref() {
                         match val {
@@ -1135,6 +1140,9 @@ impl<'a> Ctx<'a> {
                     let shown = a.clone().unwrap_or(name.clone());
                     if selected.iter().any(|s| s.0 == shown) {
                         self.out.dup_alias = true;
+                    }
+                    if a.is_some() && i >= scalars.len() {
+                        self.sys_aliases.push(shown.clone());
                     }
                     selected.push((shown, ty));
                     match a {
